@@ -9,7 +9,7 @@
 (* indices, so that TLC's workers share the file.  The driver checks that  *)
 (* the number of distinct states equals the number of records.             *)
 (***************************************************************************)
-EXTENDS Unquote, Json, IOUtils
+EXTENDS Num, Json, IOUtils
 
 CONSTANTS W,      \* number of chains
           PROP    \* property id, e.g. "C02"
@@ -62,6 +62,9 @@ Clauses(r) ==
          << <<"C07_presence", C07_presence(r)>>, <<"C07_value", C07_value(r)>>,
             <<"C07_hex_error", C07_hex_error(r)>>, <<"C07_partition", C07_partition(r)>>,
             <<"C07_buffer_unused", C07_buffer_unused(r)>> >>
+    [] PROP = "C08" ->
+         << <<"C08_extent_type", C08_extent_type(r)>>, <<"C08_int_value", C08_int_value(r)>>,
+            <<"C08_float_value", C08_float_value(r)>> >>
     [] OTHER -> <<>>
 
 Emit(id, cl) ==
